@@ -51,7 +51,7 @@ class IrqMonitor:
                 self.injected_isr |= b["isr"] & ~a["isr"] & 0xFF
             return
         py = self.model == "py"
-        executed = a["opcode"]
+        executed = a.get("op_eff", a["opcode"])
         was_low_power = a["power"] != "running"
         V = self.V
         entry = False
